@@ -23,11 +23,17 @@ BY2 = {"n": 13, "tag": 94}
 TARGET = "target-ключ-é"
 
 OPS = ["write", "write_existing_content", "write_hash", "writer_session", "writer_session_mmap", "read", "read_hash", "stream", "copy", "copy_hash", "hard_link", "metadata", "list",
-       "remove", "remove_hash", "remove_fully", "clear", "exists"]
+       "remove", "remove_hash", "remove_fully", "clear", "exists", "link_to", "link_to_hash"]
+WRITES = ("write", "write_existing_content", "write_hash", "writer_session", "writer_session_mmap", "remove", "remove_hash", "remove_fully", "link_to", "link_to_hash")
 
 
 def sri(v):
     return ref.sri("sha256", ref.gen(v["n"], v["tag"]))
+
+
+def target_of(dest):
+    """The file outside the cache that link_to* points at (holds the NEW bytes), next to the extraction destination."""
+    return os.path.join(os.path.dirname(dest), "link-target")
 
 
 def program(op, cache, dest, side):
@@ -75,6 +81,10 @@ def program(op, cache, dest, side):
         return [{"op": "remove_opts" + suf, "cache": cache, "key": TARGET, "fully": True}]
     if op == "clear":
         return [{"op": "clear" + suf, "cache": cache}]
+    if op == "link_to":
+        return [{"op": "link_to" + suf, "cache": cache, "key": TARGET, "target": target_of(dest)}]
+    if op == "link_to_hash":
+        return [{"op": "link_to_hash" + suf, "cache": cache, "target": target_of(dest)}]
     raise ValueError(op)
 
 
@@ -94,17 +104,17 @@ def new_models(op, old, window):
     """Candidate post-states when the operation took (full or partial) effect."""
     d = ref.gen(NEW["n"], NEW["tag"])
     out = []
-    if op in ("write", "writer_session", "writer_session_mmap"):
+    if op in ("write", "writer_session", "writer_session_mmap", "link_to"):
         mid = old.clone()
         mid.content[sri(NEW)] = d
         new = old.clone()
-        new.write(TARGET, sri(NEW), d, size=NEW["n"], time=window if op == "write" else 77)
+        new.write(TARGET, sri(NEW), d, size=NEW["n"], time=window if op in ("write", "link_to") else 77)
         out = [mid, new]
     elif op == "write_existing_content":
         new = old.clone()
         new.write("second-key", sri(OLD), ref.gen(OLD["n"], OLD["tag"]), size=OLD["n"], time=window)
         out = [new]
-    elif op == "write_hash":
+    elif op in ("write_hash", "link_to_hash"):
         new = old.clone()
         new.content[sri(NEW)] = d
         out = [new]
@@ -175,6 +185,22 @@ def truthful(op, reply_seq, model_before, cands_after, dest, cache):
     return None
 
 
+def _mk_target(dest):
+    with open(target_of(dest), "wb") as fh:
+        fh.write(ref.gen(NEW["n"], NEW["tag"]))
+
+
+def _links_resolved(snap, dest):
+    """link_to* publishes a symbolic link at the content address: for the content invariant it stands for the bytes it leads to."""
+    out = {}
+    for rel, e in (snap or {}).items():
+        if e[0] == "l" and rel == ref.content_rel(sri(NEW)) and e[1] == target_of(dest):
+            out[rel] = ("f", ref.gen(NEW["n"], NEW["tag"]))
+        else:
+            out[rel] = e
+    return out
+
+
 def worker(ctx, job):
     res = V.new()
     sc = job["sc"]
@@ -194,6 +220,7 @@ def worker(ctx, job):
         fsutil.restore(cache, init_snap)
         fsutil.wipe(destdir)
         os.makedirs(destdir)
+        _mk_target(dest)
         pf = ctx.path("prog-c13.json")
         with open(pf, "w") as fh:
             json.dump(program(op, cache, dest, side), fh)
@@ -249,6 +276,8 @@ def worker(ctx, job):
         last = out[-1]
         V.outcome(res, "%s:%s" % ("faulted" if injected else "fault-not-reached", "ok" if "ok" in last else "err"))
         snap = fsutil.snapshot(cache)
+        if op.startswith("link_to"):
+            snap = _links_resolved(snap, dest)
         content_check(ctx, res, snap, {"entry": "fault-" + op, "flavour": flavour, "n": NEW["n"]}, "after fault %s" % fdesc, replay)
         # state: old or one of the new candidates
         cands_new = new_models(op, old, window)
@@ -256,7 +285,7 @@ def worker(ctx, job):
             pass  # every entry is the operated object: only validity of what is left is checked
         else:
             cands = [old] + cands_new
-            if "ok" in last and op in ("write", "write_existing_content", "write_hash", "writer_session", "writer_session_mmap", "remove", "remove_hash", "remove_fully"):
+            if "ok" in last and op in WRITES:
                 cands = cands_new[-1:]   # success must be truthful: the full effect is there
             okc = None
             diffs = []
@@ -282,6 +311,7 @@ def worker(ctx, job):
         srv = ctx.srv(flavour)
         fsutil.wipe(destdir)
         os.makedirs(destdir)
+        _mk_target(dest)
         prog = program(op, cache, dest, side)
         reps = []
         for req in prog:
@@ -371,6 +401,6 @@ def main(tier, seed=0):
                          "(EIO everywhere, ENOSPC on creating/extending calls, EACCES on path calls, EMFILE on opens) and every write answered short then failed; thorough: all "
                          "ordered pairs of EIO/ENOSPC/short faults; distinct = distinct (operation, flavour, fault set)",
                     technique="exhaustive single (thorough: pairwise) fault injection at the system-call boundary of the real process (ptrace: syscall suppressed, -errno returned)",
-                    assumptions=["the 17 operations run on a warm cache with the operated key present and two bystander entries", "exists() returns a bare bool: an I/O error cannot be told from absence by API design (not judged)",
+                    assumptions=["the %d operations (link_to and link_to_hash included) run on a warm cache" % len(OPS) + " with the operated key present and two bystander entries", "exists() returns a bare bool: an I/O error cannot be told from absence by API design (not judged)",
                                  "after clear under a fault only the validity of what is left is judged"],
                     seed=seed, capped=False, jobs_done=len(scs), jobs_total=len(scs), exhaustive=True)
